@@ -1,6 +1,25 @@
 """C17 — see DESIGN.md section 5 (C17) and coq/Properties/C17.v"""
+import checklib as L
 from checks import seqcheck
+
+
+def http_stage(res):
+    """The HTTP answer of an evicted / rate-limited submitter (http.go status mapping, an anchor of C17): the evict
+    scenario of the submit harness (real chains posted to the real handler, PoolSize 1 and 2, rounds by hand) — an evicted
+    or rate-limited submitter gets 503 with Retry-After and no SCT, and its entry is never sequenced."""
+    from checks import c09
+    ok, bad, stats, log = c09.evict_probe(res.seed, with_model=True)
+    for l in bad[:3]:
+        p = L.write_replay("C17", "monitor_http_%s.txt" % L.digest(l),
+                           "property monitor failed on the implementation (HTTP answer of an evicted / rate-limited submitter; "
+                           "harness/submit -only=evict, seed %d):\n%s\n" % (res.seed, l))
+        res.violation(p, "monitor: " + l[:240])
+    if not ok and not bad:
+        p = L.write_replay("C17", "http_probe.txt", "the HTTP eviction probe (harness/submit -only=evict) did not run to completion or its model comparison differs:\n%s\n%s" % (stats, log))
+        res.violation(p, "HTTP eviction probe failed (%s)" % str(stats)[:160], no_input=True)
+    return {"http_eviction_probe": stats}
+
 
 def main(tier, seed, replay):
     return seqcheck.main("C17", "Properties/C17.v", tier, seed, replay, scenarios=['pool','clock','pool','basic','midround'],
-                         own_prefixes=tuple("C17".split(",")), known_prefixes=("C06-stale-upload",) if "C17" == "C06" else ())
+                         own_prefixes=("C17",), extra_stage=http_stage)
